@@ -6,7 +6,11 @@
 (*    net    |-> network record with MEASURED cost tables (see SNLife),      *)
 (*    alpha0 |-> coefficients after construction (x 10^4),                   *)
 (*    ev     |-> << events >>]                                               *)
+(* net.names = qualified names of the blocks, net.fixedl = every layer outside *)
+(* the blocks with its name and its hook-measured cost (names are sequences    *)
+(* of characters).                                                            *)
 (* Events (arguments + observations made on the real object):               *)
+(*   [a |-> "construct", ok, err]        SuperNet(model, ...) itself           *)
 (*   [a |-> "alpha", b, vals]            coefficients of block b (0-based)   *)
 (*   [a |-> "hard", v] [a |-> "temp", t100] [a |-> "mode", training]         *)
 (*   [a |-> "fwd" | "summary", training, theta, exact, ...]                  *)
@@ -22,7 +26,7 @@
 (***************************************************************************)
 EXTENDS SNLife, Json, IOUtils, TLC
 
-CONSTANT ExportImpl      \* "asis" (pinned export_graph) | "ref" (after a repair of F03): used for predictions only
+CONSTANT ExportImpl      \* "pinned" (export_graph before 3afbd30) | "ref": used for predictions only
 
 Traces == JsonDeserialize(IOEnv.TRACE_FILE)
 
@@ -64,7 +68,7 @@ ExportVerdict(net, st, e, i) ==
     LET W    == WinSets(st.alpha)
         aw   == AsisWin(st.alpha)
         sig  == F03Sig(net, aw)
-        asis == Export("asis", net, aw)
+        asis == Export("pinned", net, aw)
         at   == "C03 event " \o ToString(i) \o ": "
     IN
     IF ~e.ok THEN
@@ -89,7 +93,7 @@ ExportVerdict(net, st, e, i) ==
 \* for C06 such an export is not "the exported network" and is not compared with the cost)
 F03WrongBranch(net, st, e) ==
     LET aw == AsisWin(st.alpha)
-        asis == Export("asis", net, aw)
+        asis == Export("pinned", net, aw)
     IN  e.ok /\ F03Sig(net, aw) /\ ~ExportFails(asis) /\ asis # aw /\ e.kept = KeptCounts(net, asis)
 
 \* prediction (never an alarm): the as-implemented export model predicts success / failure
@@ -98,6 +102,18 @@ ExportDrift(net, st, e) ==
     IF e.ok = ExportFails(pred) THEN "drift:export outcome differs from the as-implemented model" ELSE "ok"
 
 ----------------------------------------------------------------------------
+\* diagnostic appended to a failed mix clause: does a NAME-based rule for "inside a choice block" explain
+\* the observed full cost?  (the verdict stays a violation)
+NameDiag(m, net, e, obs, tol) ==
+    LET base == Mix("ref", m, net, e.theta, FALSE, DD)
+        fits(impl) == Abs(obs - (base + DD * FixedChargedCost(impl, m, net, {}))) <= tol
+    IN  IF ~e.full THEN ""
+        ELSE IF PrefixCollision(net.names, FixedNames(net)) /\ fits("prefix")
+             THEN " [consistent with: fixed layers whose name STARTS LIKE a block's name are not charged]"
+        ELSE IF fits("sn") THEN " [consistent with: fixed layers with 'sn_' in their name are not charged]"
+        ELSE IF Abs(obs - base) <= tol THEN " [consistent with: no fixed layer is charged]"
+        ELSE ""
+
 \* C06 clauses on a cost event
 CostVerdict(net, st, e, i) ==
     LET m    == e.metric
@@ -118,7 +134,7 @@ CostVerdict(net, st, e, i) ==
     ELSE IF Abs(obs - ref) > tol THEN
         IF f23 THEN Known(F23Text)
         ELSE Viol(at \o "Mix: observed 10^4*cost " \o ToString(obs) \o " expected " \o ToString(ref)
-                     \o " +- " \o ToString(tol) \o " theta " \o ToString(e.theta))
+                     \o " +- " \o ToString(tol) \o " theta " \o ToString(e.theta) \o NameDiag(m, net, e, obs, tol))
     ELSE IF IsProb(e.theta) /\ ~(/\ DD * MinCost(m, net, e.full) - tol <= obs
                                  /\ obs <= DD * MaxCost(m, net, e.full) + tol)
         THEN Viol(at \o "Bounds: cost outside [cheapest, most expensive] selection")
@@ -162,6 +178,12 @@ Walk(prop, net, ev, i, st) ==
             Walk(prop, net, ev, i + 1,
                  [st EXCEPT !.fresh = TRUE, !.strain = e.training,
                             !.drift = Keep(st.drift, SampleDrift(net, st, e))])
+      [] e.a = "construct" ->
+            \* a model whose fixed layers use the reserved attribute name is rejected by SuperNet(...):
+            \* counted as unsupported, anything else must be accepted
+            IF e.ok THEN Walk(prop, net, ev, i + 1, st)
+            ELSE IF ReservedClash(FixedNames(net)) THEN "ok"
+            ELSE prop \o " event " \o ToString(i) \o ": SuperNet(...) raised " \o e.err
       [] e.a = "summary" ->      \* an observer since plinio commit ba220ec: it neither samples nor stores coefficients
             Walk(prop, net, ev, i + 1, st)
       [] e.a = "cost" ->
@@ -180,6 +202,9 @@ Walk(prop, net, ev, i, st) ==
 WellFormed(t) ==
     /\ t.prop \in {"C03", "C06"}
     /\ Len(t.alpha0) = NB(t.net)
+    /\ Len(t.net.names) = NB(t.net)
+    \* the per-layer list of fixed layers adds up to the totals the harness measured
+    /\ FixedCost("params", t.net) = t.net.fixed.par /\ FixedCost("ops", t.net) = t.net.fixed.ops
     /\ \A b \in 1..NB(t.net) :
           /\ Len(t.alpha0[b]) = NBr(t.net.blocks[b])
           /\ Len(t.net.blocks[b].ct) = NBr(t.net.blocks[b])
